@@ -98,6 +98,11 @@ class Specialiser:
         if isinstance(e, ast.Name):
             if self._is_function_name(e.id) or e.id in BUILTIN_CALLABLES:
                 return FRef(e.id)
+            # a parameter / single-assignment local captured in a table literal: its value at the point of use is its value at the
+            # point the table was built (it is never re-bound in this function), so the name itself can stand for the table entry
+            stores = sum(1 for n in _walk_local(self.fi.node) if isinstance(n, ast.Name) and n.id == e.id and isinstance(n.ctx, (ast.Store, ast.Del)))
+            if stores == 0 and e.id in {a.arg for a in self.fi.node.args.posonlyargs + self.fi.node.args.args + self.fi.node.args.kwonlyargs}:
+                return Opaque(e)
             raise GiveUp()
         if isinstance(e, (ast.Attribute, ast.Lambda)):
             return Opaque(e)
@@ -173,6 +178,12 @@ class Specialiser:
             return self.table_of(e, env)
         if isinstance(e, (ast.Tuple, ast.List)) and e.elts and all(isinstance(x, ast.Constant) for x in e.elts):
             return tuple(x.value for x in e.elts)
+        if isinstance(e, (ast.Tuple, ast.List)) and e.elts and all(isinstance(x, (ast.Tuple, ast.List)) and x.elts and isinstance(x.elts[0], ast.Constant) for x in e.elts):
+            # a table of (literal key, anything) rows written in place:  (("where", cond), ("sort", sort))
+            try:
+                return self.lit(e)
+            except GiveUp:
+                return _UNKNOWN
         t = self.table_of(e, env) if isinstance(e, (ast.Attribute,)) else _UNKNOWN
         if t is not _UNKNOWN:
             return t
@@ -223,7 +234,7 @@ class Specialiser:
         if isinstance(test, ast.Compare) and len(test.ops) == 1:
             op, l, r = test.ops[0], test.left, test.comparators[0]
             lv, rv = self.value(l, env, assume), self.value(r, env, assume)
-            if isinstance(op, (ast.Is, ast.IsNot)) and isinstance(r, ast.Constant) and r.value is None and lv is not _UNKNOWN:
+            if isinstance(op, (ast.Is, ast.IsNot)) and isinstance(r, ast.Constant) and r.value is None and lv is not _UNKNOWN and not isinstance(lv, Opaque):
                 res = lv is None
                 return res if isinstance(op, ast.Is) else (not res)
             if isinstance(op, (ast.Eq, ast.NotEq)):
